@@ -26,6 +26,10 @@ func TestC09Parallel(t *testing.T) {
 		for _, k := range numeric {
 			sch.Cols = append(sch.Cols, ColSpec{Name: "c_" + k.String(), Kind: k})
 		}
+		recCol := len(sch.Cols)
+		sch.Cols = append(sch.Cols, ColSpec{Name: "c_rec", Kind: KRecord, Merge: MRecAddInPlace})
+		recYield.Store(true)
+		defer recYield.Store(false)
 		c := newCollection(sch, column.Options{})
 		defer c.Close()
 		// rows: a few in each block
@@ -45,14 +49,18 @@ func TestC09Parallel(t *testing.T) {
 			Row   uint32
 			Col   int
 			Delta int
+			Abort bool // the transaction merges and then returns an error: its delta must not count
 		}
 		progs := make([][]op, workers)
 		total := map[[2]int]int64{}
 		for w := range progs {
 			for i := 0; i < txns; i++ {
-				o := op{Row: rows[rapid.IntRange(0, len(rows)-1).Draw(t, "row")], Col: 1 + rapid.IntRange(0, len(numeric)-1).Draw(t, "col"), Delta: rapid.IntRange(1, 5).Draw(t, "delta")}
+				o := op{Row: rows[rapid.IntRange(0, len(rows)-1).Draw(t, "row")], Col: 1 + rapid.IntRange(0, len(numeric)).Draw(t, "col"), Delta: rapid.IntRange(1, 5).Draw(t, "delta")}
+				o.Abort = rapid.IntRange(0, 9).Draw(t, "abort") == 0
 				progs[w] = append(progs[w], o)
-				total[[2]int{int(o.Row), o.Col}] += int64(o.Delta)
+				if !o.Abort {
+					total[[2]int{int(o.Row), o.Col}] += int64(o.Delta)
+				}
 			}
 		}
 		var wg sync.WaitGroup
@@ -95,7 +103,12 @@ func TestC09Parallel(t *testing.T) {
 					c.QueryAt(o.Row, func(r column.Row) error {
 						cs := sch.Cols[o.Col]
 						var v Value
+						if o.Abort {
+							defer func() {}()
+						}
 						switch cs.Kind {
+						case KRecord:
+							v = Value{S: recBytes(uint32(o.Delta), "")}
 						case KFloat32:
 							v = Value{B: uint64(float32ToBits(float32(o.Delta)))}
 						case KFloat64:
@@ -104,6 +117,9 @@ func TestC09Parallel(t *testing.T) {
 							v = Value{B: uint64(o.Delta)}
 						}
 						writeStore(nil, r, cs, Store{Col: o.Col, Merge: true, Val: v, Via: ViaRow})
+						if o.Abort {
+							return errRollback
+						}
 						return nil
 					})
 				}
@@ -127,6 +143,15 @@ func TestC09Parallel(t *testing.T) {
 				t.Fatalf("reading row %d: %v", row, err)
 			}
 			cs := sch.Cols[col]
+			if col == recCol {
+				wantRec := recBytes(uint32(sum), "")
+				if !got[col].Has || got[col].V.S != wantRec {
+					t.Fatalf("C09 violated (free-parallel run): row %d record column = %s after %d workers merged deltas summing to %d with an in-place merge function (want A=%d): a merge was lost, applied twice or computed from another row's record",
+						row, renderCell(KRecord, got[col]), workers, sum, sum)
+				}
+				contended++
+				continue
+			}
 			var want uint64
 			switch cs.Kind {
 			case KFloat32:
